@@ -18,7 +18,7 @@ open Driver
 
 structure St where
   path : Option PathFam.Tree := none
-  forest : Option MagpyVerif.Forest := none
+  forest : Option ForestFam.FSt := none
 
 def stepLine (st : St) (line : String) : St × String :=
   let line := line.trimAscii.toString
